@@ -318,6 +318,9 @@ def object_value(st, e):
             e = e[2]
         elif e[0] in ('ref', 'deref', 'refm'):
             e = e[1]
+        elif e[0] == 'call' and re.search(r'ops::Index(Mut)?<I>>::index(_mut)?$', e[1]) and len(e[3]) == 2 \
+                and strip(e[3][1])[0] == 'agg' and strip(e[3][1])[1] == 'std::ops::RangeFull':
+            e = e[3][0]             # `&v[..]` is the whole of v
         else:
             p = peel_payload(e)     # `helper(..)?` of an inlined helper: the payload of the Ok(..) it built on this path
             if p is e:
